@@ -1,0 +1,18 @@
+//go:build verif
+
+package contract
+
+// Contract validation (properties C03, C12): a key is accepted by a contract exactly when master id, signature
+// and contract id are equal and the contract is allowed - so a key of one contract is never accepted for another,
+// and a tampered key whose decrypted contract id, signature or master id changed is refused.
+
+import "github.com/emitter-io/emitter/internal/security"
+
+//@ verify (*contract).Validate pre=pre_Validate post=post_Validate props=C03,C12
+func pre_Validate(c *contract, key security.Key) bool { return c != nil && len(key) == 24 }
+func post_Validate(c *contract, key security.Key, res0 bool) bool {
+	master := uint16(key[2])<<8 | uint16(key[3])
+	id := uint32(key[4])<<24 | uint32(key[5])<<16 | uint32(key[6])<<8 | uint32(key[7])
+	sign := uint32(key[8])<<24 | uint32(key[9])<<16 | uint32(key[10])<<8 | uint32(key[11])
+	return res0 == (c.MasterID == master && c.Signature == sign && c.ID == id && c.State == ContractStateAllowed)
+}
